@@ -280,6 +280,26 @@ fn c03_layered_h1u() {
     kani::cover!(matches!(&got, Ok(o) if o.iterations >= 1) || got.is_err());
 }
 
+/// quick-tier flooding variant: exactly one iteration allowed (limit = 1), LLRs in [-3, 3]
+#[kani::proof]
+#[kani::unwind(8)]
+fn c03_flooding_h1_one() {
+    let mut ch = [0i32; 3];
+    let mut f = [0.0f64; 3];
+    for k in 0..3 {
+        let v: i8 = kani::any();
+        kani::assume(v >= -3 && v <= 3);
+        ch[k] = v as i32;
+        f[k] = v as f64;
+    }
+    let mut d = flooding::Decoder::new(h1_unsorted(), ExactMinSum {});
+    let got = d.decode(&f, 1);
+    let want = textbook_flooding::<3, 2>(&H1_ROWS, &ch, 1);
+    assert!(got == want);
+    kani::cover!(matches!(&got, Ok(o) if o.iterations == 0));
+    kani::cover!(matches!(&got, Ok(o) if o.iterations >= 1) || got.is_err());
+}
+
 /// quick-tier variants: iteration limit <= 1
 #[kani::proof]
 #[kani::unwind(8)]
